@@ -107,11 +107,19 @@ func (data *Data) Serialize(fr *FrameHeader) {
 			fr.Flags().Add(FlagEndStream))
 	}
 
+	// The payload is built in the frame header's buffer, not in data.b:
+	// padding the data in place made a second write of the same value frame
+	// the padded octets of the first as its data. And PADDED says what this
+	// payload looks like: a frame that was parsed (its padding is stripped
+	// then) and is written back kept the flag without the padding.
 	if data.hasPadding {
 		fr.SetFlags(
 			fr.Flags().Add(FlagPadded))
-		data.b = http2utils.AddPadding(data.b)
+		fr.payload = http2utils.AddPadding(append(fr.payload[:0], data.b...))
+
+		return
 	}
 
+	fr.SetFlags(fr.Flags() &^ FlagPadded)
 	fr.setPayload(data.b)
 }
